@@ -116,7 +116,10 @@ def run(chk):
         for ir in run_.get("ir", []):
             if ir["kind"] == "attached" or (ir["kind"] == "binding" and ir["const"]):
                 continue   # constants are embedded in the .ui, no function body is generated
-            code = ir["code"]
+            code = dict(ir["code"])
+            user = user_locals(qml, code)
+            if user:
+                code["user"] = user
             recs.append(strip_nulls({"id": len(recs) + 1, "kind": "binding" if ir["kind"] == "binding" else "callback", "code": code}))
             back.append((i, qml, ir))
             chk.count(code, nontrivial=len(code["blocks"]) >= 2)
@@ -161,6 +164,20 @@ def norm_operand(a):
     if k in ("const", "enum"):
         return ("const",)
     return ("void",)
+
+
+DECLARATOR = re.compile(r"^[A-Za-z_$][\w$]*\s*(:\s*[\w.]+\s*($|=(?!=))|=(?!=))")
+
+
+def user_locals(qml, code):
+    """indices of the locals the program itself declares: their source range is a variable declarator (`x = e`, `x: T`, `x: T = e`) or a parameter"""
+    src = qml.encode()
+    out = []
+    for l in code.get("locals", []):
+        text = src[l["r"][0]:l["r"][1]].decode("utf-8", "replace")
+        if DECLARATOR.match(text):
+            out.append(l["i"])
+    return out
 
 
 def norm_real(code):
